@@ -9,11 +9,11 @@ import (
 
 func init() {
 	register("C15", "Decides structural necessary conditions of 'configuration validation is total and the instance matches its configuration': "+
-		"(R2) for every rule of the statement there is a rejecting path: under each cause, written as a conjunction of branch-condition values over the configuration fields (log id 0; mirror without public key / with private key; log without private key; unparsable keys; frozen STH without public key, malformed, or not verifying under the configured public key; reject-expired ∧ reject-unexpired; unknown EKU name; invalid start/limit timestamp; limit < start decided on the time.Time values themselves; negative or mis-ordered merge delays on every sample ordering of (max, expected, 0); CTFE storage selected with empty / unparsable / unsupported connection string; empty or duplicate prefix; duplicate tree id; empty or duplicate backend name / spec; undefined backend; duplicate (backend, id)) no success return of the validator is reachable, and moving the decisive atom of the cause to a good value makes success reachable again; every duplicate test asks a set made in the validator itself, is passed on every turn of the element loop, identifies an element by exactly what the statement says (a single log server: the tree id alone; a multi-backend set: backend name and tree id of the same element; the prefix; the backend name; the backend spec — fields of a struct key count when filled on every path to the test, under the facts that the nil constant is nil and a fresh map is non-nil), records the very key it tests in the very set it tests on every turn and on the not-seen edge only, and a formatted key is an injective encoding; both file loaders reject input that parses neither as text nor as binary protobuf and return the parsed message; "+
+		"(R2) for every rule of the statement there is a rejecting path: under each cause, written as a conjunction of branch-condition values over the configuration fields (log id 0; mirror without public key / with private key; log without private key; unparsable keys; frozen STH without public key, malformed, or not verifying under the configured public key; reject-expired ∧ reject-unexpired; unknown EKU name; invalid start/limit timestamp; limit < start decided on the time.Time values themselves; negative or mis-ordered merge delays on every sample ordering of (max, expected, 0); CTFE storage selected with empty / unparsable / unsupported connection string, or with a mysql connection string that lacks the scheme separator \"://\" — decided by valuating every branch condition whose outcome the separator's absence fixes, however the presence test is written; empty or duplicate prefix; duplicate tree id; empty or duplicate backend name / spec; undefined backend; duplicate (backend, id)) no success return of the validator is reachable, and moving the decisive atom of the cause to a good value makes success reachable again; every duplicate test asks a set made in the validator itself, is passed on every turn of the element loop, identifies an element by exactly what the statement says (a single log server: the tree id alone; a multi-backend set: backend name and tree id of the same element; the prefix; the backend name; the backend spec — fields of a struct key count when filled on every path to the test, under the facts that the nil constant is nil and a fresh map is non-nil), records the very key it tests in the very set it tests on every turn and on the not-seen edge only, and a formatted key is an injective encoding; both file loaders reject input that parses neither as text nor as binary protobuf and return the parsed message; "+
 		"(R3) Handlers() removes exactly the add-chain and add-pre-chain entries, exactly when IsReadonly ∨ IsMirror; addChain/addPreChain are bound to a path nowhere else; Instance.Handlers is written only by SetUpInstance from logInfo.Handlers(prefix); "+
 		"(R4) newLogInfo selects FrozenSTHGetter{sth: validated frozen STH} whenever a frozen STH is configured (before the mirror case), MirrorSTHGetter for mirrors, LogSTHGetter otherwise; sthGetter / FrozenSTHGetter.sth / Instance.STHGetter have no other writer; FrozenSTHGetter.GetSTH returns exactly the stored STH; MirrorSTHGetter.GetSTH bounds the storage query by the backend root's tree size and gates both errors; setUpLogInfo rejects a non-mirror without roots and any public key that is of an unknown kind or differs from the signer's; "+
 		"(R5) the validation options and storage parameters of the instance are the validated configuration's fields (field-by-field provenance). "+
-		"NOT covered: absence of panics (C15.R1, NIL engine, separate rule set), that MirrorSTHStorage implementations honour maxTreeSize, totality/strictness of mysql.ParseDSN, pgconn.ParseConfig, protobuf parsing and key parsing, acceptance of every well-formed configuration beyond may-reachability of the success return, flag handling in the ct_server binary.",
+		"(R1) no unguarded use of an optional configuration part, no unguarded constant index on a library call's result, and every configuration string handed to a storage driver's parser is derived from its field by steps that cannot panic; NOT covered: that MirrorSTHStorage implementations honour maxTreeSize, totality/strictness of mysql.ParseDSN, pgconn.ParseConfig, protobuf parsing and key parsing, acceptance of every well-formed configuration beyond may-reachability of the success return, flag handling in the ct_server binary.",
 		runC15)
 }
 
@@ -41,8 +41,11 @@ func runC15(r *Run) {
 	}
 	nOpt := r.NilOptional(inCtfe, "*configpb*")
 	r.Floor("optional configuration parts used in ctfe", nOpt, 2)
-	nIdx := r.ConstIndexGuarded(inCtfe)
-	r.Floor("constant indices on library call results", nIdx, 1)
+	// every constant index on a library call's result is guarded (however many there are: none is fine); what the
+	// former floor of one such index stood for is counted instead: the strings handed to the storage drivers'
+	// parsers are derived from the configuration by steps that cannot panic (rules_t6c1518.go)
+	r.ConstIndexGuarded(inCtfe)
+	r.Floor("configuration strings handed to driver parsers", c15ParserInputs(r, inCtfe), 2)
 	r.Rule("C15.R2")
 	c15ValidateLogConfig(r)
 	c15Sets(r)
@@ -105,13 +108,15 @@ func c15ValidateLogConfig(r *Run) {
 	for _, c := range causes {
 		r.SgRejects(fn, k+c.name, c.c...)
 	}
+	// the statement's own example: a connection string without a scheme separator (rules_t6c1518.go)
+	c15SchemeSeparator(r, fn, k+"ctfe-storage-mysql-without-scheme-separator", ctfe, isMysql("T"))
 	// limit before start: both bounds configured and valid (the invalid ones are the two causes above), the
 	// validated limit instant before the validated start instant.  The presence of a bound may be re-tested on
 	// the validated pointer instead of the configuration field: the walk follows it there (WalkRefined).
 	vStart, vLimit := c15ValidatedInstant(r, fn, "NotAfterStart"), c15ValidatedInstant(r, fn, "NotAfterLimit")
 	valid := func(f string) SgAtom { return sgNil("(*timestamppb.Timestamp).CheckValid(*"+f+"*)", "nil") }
 	c15RejectsRefined(r, fn, k+"limit-before-start", start("non"), limit("non"), valid("NotAfterStart"), valid("NotAfterLimit"), sgOrd(vLimit, vStart, "<"))
-	r.Floor("rejection causes of ValidateLogConfig", len(causes)+1, 18)
+	r.Floor("rejection causes of ValidateLogConfig", len(causes)+2, 19)
 
 	succ := sgOkReturns(fn)
 	// merge delays: exact on sample orderings of (max, expected, 0)
